@@ -167,7 +167,7 @@ def run(ctx):
     kf = {k["sig"]: k for k in known_findings() if k["property"] == ID and k["kind"] == "known"}
     violations, known = [], []
     # glue probes (monitor only): the code around the modelled handlers - receive loop, peer selection of gossipRound, heartbeat of a completed exchange
-    gv, gcov = glue_probes(ID, binary, wd, rng, quick, which=('burst', 'round', 'heartbeat'))
+    gv, gcov = glue_probes(ID, binary, wd, rng, quick, which=('burst', 'round', 'heartbeat', 'rediscover'))
     violations += gv
     mon = [(c, f) for c, o in zip(cases, outs) for f in [monitor(c, o)] if f]
     okc = [(c, o) for c, o in zip(cases, outs) if not o.get("panic")]
